@@ -166,6 +166,16 @@ example : 0 < rho fEx (tEff fEx.p 500) ∧ 0 < mu fEx (tEff fEx.p 500) ∧ 0 < k
     fEx.p.lamCut ≤ reynolds fEx (tEff fEx.p 500) 5000 1 := by
   norm_num [reynolds, prandtl, rho, mu, k, cp, polyval, tEff, fEx]
 
+/-- `film_monotone_u` and `nusselt_pos` applied: all their hypotheses hold together for `fEx` -/
+example : film fEx 500 5000 1 ≤ film fEx 500 6000 1 :=
+  film_monotone_u fEx 500 5000 6000 1 (by norm_num) (by norm_num)
+    (by norm_num [rho, polyval, tEff, fEx]) (by norm_num [mu, polyval, fEx])
+    (by norm_num [k, polyval, fEx]) (by norm_num [prandtl, cp, mu, k, polyval, fEx])
+    (by norm_num [fEx]) (by norm_num [reynolds, rho, mu, polyval, tEff, fEx])
+example : 0 < nusselt fEx 500 5000 1 :=
+  nusselt_pos fEx 500 5000 1 (by norm_num [fEx]) (by norm_num [fEx])
+    (by norm_num [prandtl, cp, mu, k, polyval, fEx])
+
 /-- clipping really clips: 2500 K is evaluated at 2000 K, −5 K at 0 K -/
 example : tEff fEx.p 2500 = 2000 ∧ tEff fEx.p (-5) = 0 ∧ tEff fEx.p 700 = 700 := by
   norm_num [tEff, fEx]
